@@ -189,20 +189,29 @@ func ZZC04Assign() {
 }
 
 // ZZC04Infer: inferred declarations pick the strictest common type.
-func ZZC04Infer() {
-	cases := []struct{ lit, typ string }{
-		{"1", "num"}, {"\"s\"", "string"}, {"true", "bool"},
-		{"[1 2]", "[]num"}, {"[1 \"s\"]", "[]any"}, {"[]", "[]any"}, {"{}", "{}any"},
-		{"[[1] [2]]", "[][]num"}, {"[[1] [\"s\"]]", "[][]any"}, {"[[1] []]", "[][]num"}, {"[[] [1]]", "[][]num"},
-		{"[[] []]", "[][]any"}, {"[[1] 2]", "[]any"}, {"[[1] {a:1}]", "[]any"},
-		{"{a:1 b:2}", "{}num"}, {"{a:1 b:\"s\"}", "{}any"}, {"{a:[1] b:[]}", "{}[]num"}, {"{a:[] b:[1]}", "{}[]num"},
-		{"{a:[1] b:[\"s\"]}", "{}[]any"}, {"{a:{} b:{c:1}}", "{}{}num"}, {"[{a:1} {}]", "[]{}num"},
-		{"[[[1]] [[]]]", "[][][]num"}, {"[[[]] [[1]]]", "[][][]num"}, {"[[[1]] [[\"s\"]]]", "[][][]any"},
-		// variables have fixed types: no common composite type other than any
-		{"[x y]", "[]any"}, {"[x x]", "[][]num"}, {"[x [1]]", "[][]num"}, {"[x [\"s\"]]", "[]any"}, {"[x []]", "[][]num"},
-		{"{a:x b:y}", "{}any"}, {"{a:[1] b:x c:[\"s\"]}", "{}any"}, {"{a:[1] b:[\"s\"] c:x}", "{}any"}, {"{a:x b:[1] c:[\"s\"]}", "{}any"},
+var zzC04InferCases = []struct{ lit, typ string }{
+	{"1", "num"}, {"\"s\"", "string"}, {"true", "bool"},
+	{"[1 2]", "[]num"}, {"[1 \"s\"]", "[]any"}, {"[]", "[]any"}, {"{}", "{}any"},
+	{"[[1] [2]]", "[][]num"}, {"[[1] [\"s\"]]", "[][]any"}, {"[[1] []]", "[][]num"}, {"[[] [1]]", "[][]num"},
+	{"[[] []]", "[][]any"}, {"[[1] 2]", "[]any"}, {"[[1] {a:1}]", "[]any"},
+	{"{a:1 b:2}", "{}num"}, {"{a:1 b:\"s\"}", "{}any"}, {"{a:[1] b:[]}", "{}[]num"}, {"{a:[] b:[1]}", "{}[]num"},
+	{"{a:[1] b:[\"s\"]}", "{}[]any"}, {"{a:{} b:{c:1}}", "{}{}num"}, {"[{a:1} {}]", "[]{}num"},
+	{"[[[1]] [[]]]", "[][][]num"}, {"[[[]] [[1]]]", "[][][]num"}, {"[[[1]] [[\"s\"]]]", "[][][]any"},
+	// variables have fixed types: no common composite type other than any
+	{"[x y]", "[]any"}, {"[x x]", "[][]num"}, {"[x [1]]", "[][]num"}, {"[x [\"s\"]]", "[]any"}, {"[x []]", "[][]num"},
+	{"{a:x b:y}", "{}any"}, {"{a:[1] b:x c:[\"s\"]}", "{}any"}, {"{a:[1] b:[\"s\"] c:x}", "{}any"}, {"{a:x b:[1] c:[\"s\"]}", "{}any"},
+}
+
+func zzC04InferLiterals() []string {
+	var out []string
+	for _, c := range zzC04InferCases {
+		out = append(out, c.lit)
 	}
-	c := cases[zzChoice("case", len(cases))]
+	return out
+}
+
+func ZZC04Infer() {
+	c := zzC04InferCases[zzChoice("case", len(zzC04InferCases))]
 	src := "x := [1]\ny := [\"s\"]\nv := " + c.lit + "\nprint (typeof v)\nprint x y\n"
 	p := &zzPlat{}
 	ev := NewEvaluator(p)
